@@ -118,6 +118,19 @@ def check_cli(ck, tier):
                 ck.violation("cli:backup-not-faithful", "--backup of a %o file: copy missing or different" % mode, {"kind": "input", "oracle": "backup", "mode": mode})
             if os.path.exists(f + ".tmp"):
                 ck.violation("cli:tmp-left", "temporary file left after a successful --fix", {"kind": "input"})
+        # histories: a backup left by an earlier run, older / newer / as old as the file it now has to protect
+        for k, (label, dt) in enumerate((("older", -100), ("same-age", 0), ("newer", 100))):
+            f = os.path.join(tmp, "h%d.vhd" % k)
+            shutil.copy(src, f)
+            st = os.stat(f)
+            with open(f + ".bak", "w") as fh:
+                fh.write("-- backup of an earlier revision\n")
+            os.utime(f + ".bak", ns=(st.st_atime_ns, st.st_mtime_ns + dt * 10 ** 9))
+            before = snap(f)
+            rc, so, se = cli(["-f", f, "--fix", "--backup", "-p", "1"], tmp)
+            n += 1
+            if snap(f)[0] != before[0] and open(f + ".bak", "rb").read() != before[0]:
+                ck.violation("cli:backup-not-faithful:stale-backup-%s" % label, "--fix --backup rewrote the file but the backup (%s than the file before the run) does not hold the content the file had" % label, {"kind": "history", "oracle": "backup", "stale_backup": label})
         # rejected file, configuration error
         bad = os.path.join(tmp, "bad.vhd")
         open(bad, "w").write("entity e is\n  port (a : in std_logic\nend entity e;\narchitecture a of e is begin begin end;\n")
